@@ -476,7 +476,8 @@ def h_many_ranks(k, flags, ranks, stride):
 
 # ------------------------------------------------------------------------------
 @obligation(params={'node': (0, 2), 'ranks': (1, 2), 'mpi': 'bool',
-                    'order': (0, 1), 'local': (0, 2)},
+                    'order': (0, 1), 'local': (0, 2), 'prev': (0, 6)},
+            partition={'quick': ('prev', 7), 'thorough': ('prev', 7)},
             timeout={'quick': 200, 'thorough': 400},
             funcs=['radical/pilot/agent/resource_manager/base.py:'
                    'ResourceManager.find_launcher',
@@ -484,11 +485,16 @@ def h_many_ranks(k, flags, ranks, stride):
                    'radical/pilot/agent/launch_method/ssh.py:SSH.can_launch'],
             bounds='launch order [FORK, SSH, MPIRUN] or [SSH, FORK, MPIRUN]; '
                    'the executor runs on node0/node1/"node" (a name that is a '
-                   'prefix of the others); 1..2 ranks on node 0..2, MPI flag')
-def h_find_launcher(node, ranks, mpi, order, local):
-    """the selected launcher can enact the placement"""
+                   'prefix of the others); 1..2 ranks on node 0..2, MPI flag; '
+                   'asked on a fresh resource manager or after a launcher was '
+                   'selected for another task (1 rank on node 0..2, or 2 MPI '
+                   'ranks on node 0..2)')
+def h_find_launcher(node, ranks, mpi, order, local, prev):
+    """the selected launcher can enact the placement, whatever was asked
+    before"""
     node, ranks, order, local = conc(node, 0, 2), conc(ranks, 1, 2), \
                                 conc(order, 0, 1), conc(local, 0, 2)
+    prev = conc(prev, 0, 6)
     st  = Store()
     fk  = _lm('FORK', 0, st)
     fk.node_name = ['node0', 'node1', 'node01'][local]
@@ -498,8 +504,22 @@ def h_find_launcher(node, ranks, mpi, order, local):
     rm._launchers    = lms
     rm._launch_order = [['FORK', 'SSH', 'MPIRUN'],
                         ['SSH', 'FORK', 'MPIRUN']][order]
+    if prev:
+        pn, pr = (prev - 1) % 3, 1 + (prev - 1) // 3
+        tp = mk_task('tp', [pn] * pr, [1] * pr, 0, use_mpi=pr > 1)
+        rm.find_launcher(tp)
     t = mk_task('t0', [node] * ranks, [1] * ranks, 0, use_mpi=mpi or ranks > 1)
     lm, name = rm.find_launcher(t)
+    if prev:
+        # history independence: a fresh resource manager decides the same
+        rm2 = object.__new__(m_rmb.ResourceManager)
+        rm2._log, rm2._launchers = Null(), lms
+        rm2._launch_order = list(rm._launch_order)
+        lm2, name2 = rm2.find_launcher(
+            mk_task('t0', [node] * ranks, [1] * ranks, 0,
+                    use_mpi=mpi or ranks > 1))
+        check(name == name2, 'launcher %s selected after another task, %s on '
+              'a fresh resource manager', name, name2)
     if lm is None:
         return
     reach()
